@@ -200,6 +200,17 @@ Section C15.
     is_err (group_step st name s).
   Proof. intros. eapply group_step_ts_rejected; eassumption. Qed.
 
+  (* two Timestamp(sec, nsec) values are ordered exactly, at every magnitude: no rounding through a double, so a step
+     back of one nanosecond at an epoch-sized second, or of one second beyond 2^53, counts as going backwards *)
+  Theorem C15_timestamp_order_exact : forall s1 n1 s2 n2,
+    om_ts_gt fix_tsmix NUM num_lt ts_float (OTs s1 n1) (OTs s2 n2)
+    = Ok ((s2 <? s1)%Z || ((s1 =? s2)%Z && (n2 <? n1)%Z)).
+  Proof.
+    intros. cbn. destruct (s1 =? s2)%Z eqn:E.
+    - apply Z.eqb_eq in E. subst. rewrite Z.ltb_irrefl. reflexivity.
+    - cbn. rewrite orb_false_r. reflexivity.
+  Qed.
+
   (* lifting a failed per-sample check to the line: the sample stays in the family in progress *)
   Theorem C15_sample_line_rejected : forall st line s name,
     read_sample (st_typ st) line = Ok (s, false) ->
@@ -275,6 +286,23 @@ Example C15_example_documents :
 Proof. vm_compute. repeat split; auto. Qed.
 
 (* the hypotheses of C15_hist_adjacent_buckets are satisfiable: le="2" followed by le="1" in one group *)
+(* a bound of exactly zero is a bound like any other: 0 then 00 (the same number) is rejected *)
+Definition ex_zero_bound := "# TYPE a histogram
+a_bucket{le=""0""} 1
+a_bucket{le=""00""} 1
+a_bucket{le=""+Inf""} 1
+# EOF
+"%string.
+Definition ex_ns_back := "# TYPE a gauge
+a 1 9007199254740993
+a 2 9007199254740992
+# EOF
+"%string.
+Example C15_example_zero_bound_and_tiny_step :
+  toy_parse true true true true true true ex_zero_bound = Err ValueError
+  /\ toy_parse true true true true true true ex_ns_back = Err ValueError.
+Proof. vm_compute. split; reflexivity. Qed.
+
 Definition ex_s (le : string) (v : Z) : om_sample Z :=
   {| os_name := s2l "a_bucket"; os_labels := Some [(s2l "x", s2l "2"); (OM_le, s2l le)]; os_value := Some v;
      os_ts := None; os_ex := None; os_nh := None |}.
@@ -310,5 +338,6 @@ Print Assumptions C15_bucket_le.
 Print Assumptions C15_exemplar_ineligible.
 Print Assumptions C15_exemplar_length.
 Print Assumptions C15_group_timestamps.
+Print Assumptions C15_timestamp_order_exact.
 Print Assumptions C15_sample_line_rejected.
 Print Assumptions C15_label_names_distinct.
